@@ -34,12 +34,21 @@ SHAPES = {
     # one-to-one with cascade_delete declared on the column-holding side: deleting B deletes its A, deleting A only
     # clears B's reference (4th element: ChildCasc)
     'o2o_opt_childcasc': ('o2o', False, False, True),
+    # the same specification constants as o2m_opt / mix_opt, but A has the composite primary key (id, z) with
+    # z = 3 - id (keys (1, 2) and (2, 1)): two-column references, link rows and identity-map keys (5th element)
+    'o2m_opt_cpk': ('o2m', False, False, False, True),
+    'mix_opt_cpk': ('mix', False, False, False, True),
 }
 
 
 def shape_of(shape):
     t = SHAPES[shape]
-    return t if len(t) == 4 else t + (False,)
+    return (t + (False, False))[:4]
+
+
+def composite_pk(shape):
+    t = SHAPES[shape]
+    return len(t) > 4 and t[4]
 
 # which category of disagreement belongs to which property
 CATEGORIES = {
@@ -107,9 +116,17 @@ class World:
         elif strategy == 'nplus1_none':
             setkw['nplus1_threshold'] = None
 
+        cpk = self.cpk = composite_pk(shape)
+        acol = dict(columns=['a_id', 'a_z']) if cpk else dict(column='a_id')
+
         class A(db.Entity):
             _table_ = 'ta'
-            id = PrimaryKey(int)
+            if cpk:
+                id = Required(int)
+                z = Required(int)
+                PrimaryKey(id, z)
+            else:
+                id = PrimaryKey(int)
             v = Optional(int, lazy=lazy)
             if rel == 'mix':
                 ls = Set('B', reverse='as_', table='tl', column='b_id', **setkw)     # declared first: cleared first by delete
@@ -126,13 +143,13 @@ class World:
             id = PrimaryKey(int)
             u = Optional(int, unique=True, lazy=lazy)
             if rel == 'mix':
-                a = Required(A, column='a_id', reverse='bs', lazy=lazy) if breq else Optional(A, column='a_id', reverse='bs', lazy=lazy)
-                as_ = Set(A, column='a_id', reverse='ls', **setkw)
+                a = Required(A, reverse='bs', lazy=lazy, **acol) if breq else Optional(A, reverse='bs', lazy=lazy, **acol)
+                as_ = Set(A, reverse='ls', **dict(setkw, **acol))
             elif rel in ('o2m', 'o2o'):
-                a = Required(A, column='a_id', lazy=lazy) if breq else Optional(A, column='a_id', cascade_delete=True, lazy=lazy) if childcasc \
-                    else Optional(A, column='a_id', lazy=lazy)
+                a = Required(A, lazy=lazy, **acol) if breq else Optional(A, cascade_delete=True, lazy=lazy, **acol) if childcasc \
+                    else Optional(A, lazy=lazy, **acol)
             else:
-                as_ = Set(A, column='a_id', **setkw)
+                as_ = Set(A, **dict(setkw, **acol))
 
         self.A, self.B = A, B
         self.links = rel in ('m2m', 'mix')
@@ -166,15 +183,25 @@ class World:
         con.execute('DELETE FROM ta')
         for k, row in fmap(state['A']).items():
             if row['ex']:
-                con.execute('INSERT INTO ta (id, v) VALUES (?, ?)', (k, row['v'] or None))
+                if self.cpk:
+                    con.execute('INSERT INTO ta (id, z, v) VALUES (?, ?, ?)', (k, 3 - k, row['v'] or None))
+                else:
+                    con.execute('INSERT INTO ta (id, v) VALUES (?, ?)', (k, row['v'] or None))
         for k, row in fmap(state['B']).items():
             if row['ex']:
                 if self.rel == 'm2m':
                     con.execute('INSERT INTO tb (id, u) VALUES (?, ?)', (k, row['u'] or None))
                 else:
-                    con.execute('INSERT INTO tb (id, u, a_id) VALUES (?, ?, ?)', (k, row['u'] or None, row['a'] or None))
+                    if self.cpk:
+                        con.execute('INSERT INTO tb (id, u, a_id, a_z) VALUES (?, ?, ?, ?)',
+                                    (k, row['u'] or None, row['a'] or None, (3 - row['a']) if row['a'] else None))
+                    else:
+                        con.execute('INSERT INTO tb (id, u, a_id) VALUES (?, ?, ?)', (k, row['u'] or None, row['a'] or None))
         for a, b in state['L']:
-            con.execute('INSERT INTO tl (a_id, b_id) VALUES (?, ?)', (a, b))
+            if self.cpk:
+                con.execute('INSERT INTO tl (a_id, a_z, b_id) VALUES (?, ?, ?)', (a, 3 - a, b))
+            else:
+                con.execute('INSERT INTO tl (a_id, b_id) VALUES (?, ?)', (a, b))
         con.execute('COMMIT')
         con.close()
 
@@ -201,6 +228,19 @@ class World:
         for k, row in B.items():
             if row['a'] and row['a'] not in A:
                 problems.append('dangling reference tb[%d].a_id=%d' % (k, row['a']))
+        if self.cpk:
+            # both components of every stored key must belong together
+            for k, z in con.execute('SELECT id, z FROM ta'):
+                if z != 3 - k:
+                    problems.append('ta row with key (%r, %r)' % (k, z))
+            if self.rel != 'm2m':
+                for k, a, z in con.execute('SELECT id, a_id, a_z FROM tb'):
+                    if (a is None) != (z is None) or (a is not None and z != 3 - a):
+                        problems.append('tb[%d] refers to (%r, %r)' % (k, a, z))
+            if self.links:
+                for a, z, b in con.execute('SELECT a_id, a_z, b_id FROM tl'):
+                    if z != 3 - a:
+                        problems.append('link row (%r, %r) - %r' % (a, z, b))
         for a, b in L:
             if a not in A or b not in B:
                 problems.append('dangling link (%d,%d)' % (a, b))
@@ -270,6 +310,10 @@ class Adapter:
     def ent(self, e):
         return self.w.A if e == 'A' else self.w.B
 
+    def pk(self, e, k):
+        """The raw primary key of object k (A's key is the pair (k, 3 - k) in the composite-key shapes)."""
+        return (k, 3 - k) if e == 'A' and self.w.cpk else k
+
     def obj(self, e, k):
         w = self.w
         o = w.registry.get((e, k))
@@ -278,7 +322,7 @@ class Adapter:
         E = self.ent(e)
         form = self.rng.randrange(3)
         if form == 0:
-            o = E[k]
+            o = E[self.pk(e, k)]
         elif form == 1:
             o = E.get(id=k)
         else:
@@ -401,6 +445,8 @@ class Adapter:
         e, k = ev['e'], ev['k']
         if e == 'A':
             kw = {'id': k}
+            if w.cpk:
+                kw['z'] = 3 - k
             if ev['x'] or self.rng.randrange(2):
                 kw['v'] = ev['x'] or None
             o = w.A(**kw)
@@ -416,7 +462,7 @@ class Adapter:
                         o = parent.bs.create(**kw)
                         self.reg(e, k, o)
                         return
-                    kw['a'] = parent if self.rng.randrange(2) else z
+                    kw['a'] = parent if self.rng.randrange(2) else self.pk('A', z)
                 elif self.rng.randrange(2):
                     kw['a'] = None
             o = w.B(**kw)
@@ -448,7 +494,7 @@ class Adapter:
         elif form == 1:
             o.set(a=val)
         else:
-            o.a = z          # raw primary key value
+            o.a = self.pk('A', z)          # raw primary key value
     def do_SetMany(self, ev):
         o = self.obj('B', ev['k'])
         z = ev['y']
@@ -629,7 +675,7 @@ class Adapter:
             o = E.get(id=k)
         elif form == 1:
             try:
-                o = E[k]
+                o = E[self.pk(e, k)]
             except core.ObjectNotFound:
                 o = None
         elif form == 2:
